@@ -151,6 +151,15 @@ def ambiguous_bytes(area, d):
     return out
 
 
+def member_names(d):
+    env = d["SUIT_Envelope_Tagged"]
+    names = []
+    for k in ("suit-integrated-payloads", "suit-integrated-dependencies"):
+        for n in (env.get(k) or {}).keys():
+            names.append(n)
+    return sorted(names)
+
+
 def payload_leaves(d):
     out = []
     if isinstance(d, dict) and "SUIT_Envelope_Tagged" in d:
@@ -201,6 +210,10 @@ def h_roundtrip(area, fix=None, exclude=()):
         b2 = c02.real_encode(e, clsname, c02._clone(d2))
         d3 = parse(e, clsname, b2)
         ok = b2 == b and d3 == d2 and fidelity(area, d if clsname != "SuitEnvelopeTagged" else d, d2)
+        if clsname == "SuitEnvelopeTagged":
+            # the parsed description names the same integrated members as the description the envelope was made from (as payload or,
+            # when the bytes are an envelope, as dependency): nothing dropped on either leg
+            ok = ok and member_names(d) == member_names(d2)
         return chx.conclude(ok)
 
     return harness
